@@ -6,7 +6,7 @@
    Kleene fixpoint of the derived plain grammar (Ebnf!StepL) on strings up to
    length K.  When both are stable, every user-written rule must denote the
    same set of terminal strings in both: no sentence added, none lost.      *)
-EXTENDS Ebnf, TLC, Json
+EXTENDS Ebnf, SymTab, TLC, Json
 
 Cases == ndJsonDeserialize("specs.ndjson")
 
@@ -27,9 +27,17 @@ Next == /\ ~done
         /\ c' = c
 Spec == Init /\ [][Next]_vars
 
+\* the implementation-shaped model of the symbol table (SymTab.tla) on the same rules
+ModelOf(k) == Model(Rules(k))
+ImplProds(k) == { Cases[k].prods[i] : i \in 1..Len(Cases[k].prods) }
+ModelProds(k) == LET m == ModelOf(k) IN { m.prods[i] : i \in 1..Len(m.prods) }
+Explained(k) == ModelProds(k) = ImplProds(k) /\ ModelOf(k).clash
+
 Diff(n) == [rule |-> n, lost |-> D[n] \ L[n], added |-> L[n] \ D[n]]
 Bad == { n \in DOMAIN D : D[n] # L[n] }
 Same == (done /\ Bad # {}) =>
-          PrintT("LANGDIFF " \o ToJson([id |-> Cases[c].id, diffs |-> { Diff(n) : n \in Bad }]))
+          PrintT("LANGDIFF " \o ToJson([id |-> Cases[c].id, diffs |-> { Diff(n) : n \in Bad }, explained |-> Explained(c)]))
+Drift == (done /\ ModelProds(c) # ImplProds(c)) =>
+           PrintT("DRIFT " \o ToJson([id |-> Cases[c].id, onlymodel |-> ModelProds(c) \ ImplProds(c), onlyimpl |-> ImplProds(c) \ ModelProds(c)]))
 Stable == done => PrintT("STABLE " \o ToJson([id |-> Cases[c].id]))
 =============================================================================
